@@ -189,7 +189,7 @@ def witness_fails(finding):
 
 
 def run(ctx):
-    n = ctx.budget(3000, 50000)
+    n = ctx.budget(6000, 60000)
     depth = ctx.budget(4, 5)
     rng = ctx.rng("any")
     cases = []
@@ -198,6 +198,16 @@ def run(ctx):
         if c["mode"] == "k" and rng.random() < 0.4:
             c["ck"] = rng.choice([rng.sample(cc.KEYS, 1), rng.sample(cc.KEYS, 2), rng.choice(cc.KEYS)])
         cases.append(c)
+    # keyed record lists in permuted order: matched pairs at different indexes ([i]<>[j] paths)
+    from harness.props import c08
+
+    rng2 = ctx.rng("keyed")
+    for _ in range(n // 3):
+        k = c08.gen_c08_case(rng2, 2)
+        if c08.unique_keys(k):
+            kc = c08.as_case(k, permute=True)
+            kc["_kind"] = "keyed"
+            cases.append(kc)
     nt = lambda c: c["_kind"] != "equal"
     ctx.correspond("cmp.run/any", cases, cc.corr_line, cc.corr_impl, nontrivial=nt)
     ctx.evaluate("faithful", cases, check_faithful, in_known=known_class, nontrivial=nt)
